@@ -233,7 +233,7 @@ static void apply(void *vs, int op, int check)
 	}
 	case K_REFUSED:
 	{
-		static const int bad[] = {INT_MAX - 1, INT_MAX, -1, -100, INT_MIN};
+		static const int bad[] = {INT_MAX - 1, INT_MAX, -1, -100, INT_MIN, 1 << 29 /* passes the length guard, refused by the allocator */};
 		int rc = json_object_set_string_len(s->o, "x", bad[a]);
 		if (rc != 0)
 		{
@@ -269,7 +269,7 @@ static int menu(void *vs, int *ops, int cap)
 		ops[n++] = (K_SET_Z << 8) | a;
 		ops[n++] = (K_SET_Z_FAIL << 8) | a;
 	}
-	for (int a = 0; a < 5; a++)
+	for (int a = 0; a < 6; a++)
 		ops[n++] = (K_REFUSED << 8) | a;
 	return n;
 }
